@@ -13,6 +13,15 @@ Engine E2 (exhaustive product), level "exploration", exhaustive over the finite 
   misc  explicit lists                              PARSE_JSON / TRY_PARSE_JSON texts (valid, invalid, NULL), NULL keys,
                                                     SPLIT strings x separators (value, element, size, FLATTEN), FLATTEN
                                                     of literals
+  nest  NEST_DOCS x inner path x inner syntax       nested navigation: OUTER_OP( WRAPPER( INNER_PATH(v) ) OUTER_PATH ), a path
+        x NEST_WRAPPERS x outer path x outer        + conversion whose base is itself built from another path (+ conversion)
+        syntax x outer op                           of the document: PARSE_JSON / TRY_PARSE_JSON of a string-valued path
+                                                    (documents holding JSON text as a string: double-encoded payloads),
+                                                    OBJECT_CONSTRUCT[_KEEP_NULL] / ARRAY_CONSTRUCT / [..] of an extracted
+                                                    value, IFF / CASE / COALESCE whose condition or branch holds an
+                                                    extraction, a path on a subquery / CTE column that was itself
+                                                    extracted; colon, bracket and GET_PATH syntax inside and outside; on
+                                                    the table column (all rows at once) and on a PARSE_JSON literal
 
 The reference is mc/ref/json_nav.py: Python navigation of the json.loads-ed document plus Snowflake's documented
 conversions; expectations never come from fakesnow.
@@ -39,6 +48,7 @@ Clauses
   C11.context         (7) operator context over a cast extraction = context applied to the navigated value (3VL)
   C11.context_uncast  (7) the same over the bare extraction where the operator matches the value's kind
   C11.split               SPLIT gives the list of parts (a JSON array of strings)
+  C11.nested          (1,2,7) nested navigation = the composition of the Python navigations
 
 Not demanded (deliberately left open: Snowflake raises or is not documented unambiguously):
   * casts of strings / containers to NUMBER, INT, FLOAT, BOOLEAN, of booleans to numbers, of numbers to BOOLEAN;
@@ -51,7 +61,12 @@ Not demanded (deliberately left open: Snowflake raises or is not documented unam
     object constants {'a': 1}, PARSE_JSON of '' / single-quoted JSON / trailing commas (Snowflake is lenient there);
   * two or more brackets written directly on a PARSE_JSON(..) literal or on a constructor call (PARSE_JSON('..')[0][1],
     [[1]][0][0]): explored on the table columns only -- on literals DuckDB types the intermediate value differently
-    and the same defect (only the last bracket is rewritten) shows up in other, typing-dependent ways.
+    and the same defect (only the last bracket is rewritten) shows up in other, typing-dependent ways; likewise, in
+    the nested layer, an inner [index] inside the base of an outer bracket (parse_json(v[1]::varchar)['a']) is not
+    explored -- the ['key'] shape of the same defect is;
+  * nested layer: PARSE_JSON of an *uncast* extraction, of '' and of text that is not JSON (Snowflake raises / is
+    lenient); text or number conversions directly on a wrapper's value (PARSE_JSON(..)::VARCHAR: the un-nested 'root'
+    shape, reported under C11.text); the text of a container put into a constructor; COALESCE over a JSON null.
 """
 from __future__ import annotations
 
@@ -532,13 +547,14 @@ def _exc_name(e):
 
 
 def run_exprs(cur, acc, exprs, pre, tail, head=""):
-    """Evaluate `exprs` as one SELECT list (`pre` leading columns, `tail` = FROM/WHERE text, `head` = WITH clause). A raising statement is
-    split in halves down to single expressions. Returns per expression ('ok', [(pre values, value), ...]) in result
-    order, or ('err', exception class, first line of the message)."""
+    """Evaluate `exprs` as one SELECT list (`pre` leading columns, `tail` = FROM/WHERE text, `head` = WITH clause). A
+    raising statement is split in halves, recursively, down to single expressions (when both halves of a raising
+    batch raise as well, their expressions are run one per statement right away). Returns per expression
+    ('ok', [(pre values, value), ...]) in result order, or ('err', exception class, first line of the message)."""
     out = [None] * len(exprs)
     npre = len(pre)
 
-    def go(lo, hi):
+    def attempt(lo, hi):
         sel = ", ".join(list(pre) + [f"{exprs[i]} as c{i}" for i in range(lo, hi)])
         acc.count("statements")
         try:
@@ -547,17 +563,28 @@ def run_exprs(cur, acc, exprs, pre, tail, head=""):
         except Exception as e:  # noqa: BLE001  (any exception = the statement is rejected)
             if hi - lo == 1:
                 out[lo] = ("err", _exc_name(e), str(e).split("\n")[0][:200])
-                return
-            acc.count("batches_split")
-            mid = (lo + hi) // 2
-            go(lo, mid)
-            go(mid, hi)
-            return
+            return False
         for i in range(lo, hi):
             out[i] = ("ok", [(r[:npre], r[npre + i - lo]) for r in rows])
+        return True
 
-    if exprs:
-        go(0, len(exprs))
+    def split(lo, hi):
+        """exprs[lo:hi] (more than one) raised as a batch"""
+        acc.count("batches_split")
+        mid = (lo + hi) // 2
+        halves = [(lo, mid), (mid, hi)]
+        oks = [attempt(x, y) for x, y in halves]
+        for (x, y), ok in zip(halves, oks):
+            if ok or y - x == 1:
+                continue
+            if not any(oks):
+                for i in range(x, y):
+                    attempt(i, i + 1)
+            else:
+                split(x, y)
+
+    if exprs and not attempt(0, len(exprs)) and len(exprs) > 1:
+        split(0, len(exprs))
     return out
 
 
@@ -588,8 +615,9 @@ CLASS_FEATURES: dict = {
     "C11.object_construct": ("op", "style", "cause", "case"),
     "C11.split": ("op", "kind", "form"),
     # nested navigation: nb = a bracket access whose base holds another bracket access; else the wrapper, the conversion
-    # applied to the inner path (ic) and on top of the outer path (oc), the kinds of the inner value and of the result
-    "C11.nested": ("nb", "w", "ic", "oc", "xkind", "kind"),
+    # applied to the inner path (ic) and on top of the outer path (oc), the kind of the inner value, and whether the
+    # expected result is a value or NULL (res)
+    "C11.nested": ("nb", "w", "ic", "oc", "xkind", "res"),
 }
 
 
@@ -1342,16 +1370,21 @@ N_I2 = ["Str", {"a": -1.5}]
 # values at the end of the inner path: a plain string, strings that are themselves JSON text (double-encoded payloads:
 # of an object, an array, a string, a number), the empty string, scalars, JSON null, and real sub-documents
 NEST_VALS = ["Str", canon(N_I1), canon(N_I2), '"Str"', "0", "", 0, True, None, N_I1, N_I2]
-NEST_P1 = {"quick": [("B",), (1,), ("zz",)], "thorough": [("a",), ("B",), (0,), (1,), ("zz",)]}
+NEST_P1 = {"quick": [("B",), (1,)], "thorough": [("a",), ("B",), (0,), (1,), ("zz",)]}
 NEST_SYN = ["colon", "bracket", "getpath"]
-NEST_OPS = {"quick": ["raw", "varchar", "trim", "array_size", "int"],
+NEST_OPS = {"quick": ["raw", "varchar", "trim", "int"],
             "thorough": ["raw", "varchar", "string", "upper", "lower", "trim", "array_size", "int", "float"]}  # fmt: skip
-NEST_P2 = {  # outer paths by what the wrapper's value is
+_NEST_P2_FULL = {  # outer paths by what the wrapper's value is
     "val": [(), ("a",), ("B",), (0,), (1,), ("B", 0), ("B", 1), (1, "a"), ("zz",)],  # the inner value (parsed)
     "k": [("k",), ("k", "a"), ("k", 0), ("zz",)],  # OBJECT_CONSTRUCT('k', inner value)
     "arr": [(0,), (0, "a"), (0, 0), (1,)],  # ARRAY_CONSTRUCT(inner value)
     "doc": [("a",), ("B",), (0,), (1,), ("zz",)],  # the whole document, chosen by a condition over the inner value
 }
+NEST_P2 = {
+    "quick": {"val": [(), ("a",), (0,), ("B", 0), (1, "a"), ("zz",)], "k": [("k",), ("k", "a"), ("zz",)],
+              "arr": [(0,), (0, "a"), (1,)], "doc": [("a",), ("B",), (1,)]},
+    "thorough": _NEST_P2_FULL,
+}  # fmt: skip
 NEST_LIT_VALS = {"quick": [canon(N_I1), "Str", N_I1], "thorough": NEST_VALS}
 
 
@@ -1363,7 +1396,7 @@ def nest_docs_for(tier):
 def nest_lit_docs_for(tier):
     """(document, inner path): literal source, one frame per kind of step"""
     out = []
-    for f, p1 in (("O2R", (KEY2,)), ("A2R", (1,))) if tier == "quick" else (("O1", (KEY1,)), ("O2R", (KEY2,)), ("A1", (0,)), ("A2R", (1,))):
+    for f, p1 in (("O2R", (KEY2,)), ("A2R", (1,))):
         for v in NEST_LIT_VALS[tier]:
             out.append((frame(f, v, FILL), p1))
     return out
@@ -1452,16 +1485,9 @@ NEST_WRAPPERS = [
 ]
 
 
+NEST_COARSE = ("iff.not",)  # wrappers whose class key is the wrapper alone (an uncast operator over the inner path)
 _CONV = {"raw": "none", "varchar": "cast", "string": "cast", "int": "cast", "float": "cast", "number": "cast", "boolean": "cast",
          "trim": "trim", "upper": "cased", "lower": "cased", "array_size": "array_size"}  # fmt: skip
-
-
-def nest_feats(wrapper, form1, form2, o, x, tgt):
-    """class features of one nested expression (input shape only)"""
-    wid, _tpl, inner, _ref, _fam, placement, _syns = wrapper
-    if placement == "inline" and formclass_ops(form1) == "b" and formclass_ops(form2) in ("b", "b1:p"):
-        return {"nb": "bracket-in-bracket-base"}
-    return {"w": wid, "ic": _CONV[inner], "oc": _CONV[o], "xkind": J.kind_of(x), "kind": J.kind_of(tgt)}
 
 
 def _nest_place(placement, wsql, cond=None, single=False):
@@ -1476,13 +1502,17 @@ def _nest_place(placement, wsql, cond=None, single=False):
     raise ValueError(placement)
 
 
-def nest_exprs(wrapper, src, xsql, tier, lit=False):
-    """[(outer path, outer syntax, form, op, template over {S} = the wrapper's value)]"""
-    wid, _tpl, _inner, _ref, fam, _place, syns = wrapper
+def nest_exprs(wrapper, tier, lit=False):
+    """[(outer path, outer syntax, form of the outer access, op)]"""
+    fam, syns = wrapper[4], wrapper[6]
+    if lit and tier == "quick":
+        syns = [x for x in syns if x != "getpath"] or syns
     out = []
-    for p2 in NEST_P2[fam]:
-        for sy, _sql, form in renderings("{S}", p2, [s for s in syns if not (lit and s == "getpath" and tier == "quick")]):
+    for p2 in NEST_P2[tier][fam]:
+        for sy, _sql, form in renderings("S", p2, syns):
             for o in NEST_OPS[tier]:
+                if not p2 and o not in ("raw", "array_size"):
+                    continue  # text / number conversions of the wrapper's bare value: that is the un-nested 'root' shape
                 out.append((p2, sy, form, o))
     return out
 
@@ -1495,9 +1525,27 @@ def _nest_expected(wrapper, doc, x, p2, o):
     return expected(o, tgt), tgt
 
 
+def nest_skipped(wrapper, form1, form2):
+    """an inner [index] inside the base of an outer bracket is not explored: it is the same defect as the ['key'] shape
+    (only the outer bracket is rewritten), but what the untouched inner [index] then yields depends on DuckDB's own
+    indexing and typing of the value, which no input feature predicts"""
+    return wrapper[5] == "inline" and formclass_ops(form1) == "b" and "K" not in form1 and formclass_ops(form2) in ("b", "b1:p")
+
+
+def nest_feats(wrapper, doc, p1, form1, p2, form2, o, x, tgt):
+    """class features of one nested expression (input shape only)"""
+    wid, _tpl, inner, _ref, _fam, placement, _syns = wrapper
+    if placement == "inline" and formclass_ops(form1) == "b" and formclass_ops(form2) in ("b", "b1:p"):
+        return {"nb": "key-bracket-in-bracket-base"}
+    if wid in NEST_COARSE:
+        return {"w": wid}
+    return {"w": wid, "ic": _CONV[inner], "oc": _CONV[o], "xkind": J.kind_of(x), "res": "null" if expected(o, tgt) is None else "value"}
+
+
 def work_nest(item, acc, tier):
     """item = ('nest', wrapper index, inner path index): every inner syntax x outer path x outer syntax x outer op over all
-    rows of jn. Rows where the inner path + its cast alone are wrong, and rows where nothing is demanded, stay out."""
+    rows of jn. Judged in dependency order: the inner path with its conversion alone; the bare nested extraction; the
+    operations on top of it -- each only on rows where what it builds on is right and where something is demanded."""
     _, wi, pi = item
     wrapper = NEST_WRAPPERS[wi]
     wid, tpl, inner, ref, fam, placement, _syns = wrapper
@@ -1508,54 +1556,35 @@ def work_nest(item, acc, tier):
     xs = [J.navigate(d, p1) for d in docs]
     _ks, ts = _set_kk(w, ("nest", pi), xs)
     allids = list(range(len(docs)))
-    for sy1, xsql, form1 in renderings("v", p1, NEST_SYN):
-        # level 0: the inner path with the conversion the wrapper applies to it, on its own
-        iexp = {i: expected(inner, xs[i]) for i in allids}
-        live0 = [i for i in allids if iexp[i] is not J.UNDEMANDED]
-        _set_excluded(w, set(allids) - set(live0))
-        r0 = run_exprs(cur, acc, [OPS[inner]["tpl"].format(x=xsql)], ["id"], " from jn where id in (select id from kk where not x)")[0]
-        got0 = _by_id(r0[1]) if r0[0] == "ok" else {}
-        good0 = [i for i in live0 if r0[0] == "ok" and _judge(OPS[inner]["mode"], iexp[i], ("ok", got0.get(i, ())))]
-        acc.count("shadowed_cells", len(live0) - len(good0))
-        wsql = tpl.format(X=xsql, V="v")
-        _h, _pre, _t, src = _nest_place(placement, wsql, "true")
-        combos = nest_exprs(wrapper, src, xsql, tier)
-        # expressions grouped by the set of rows on which they are demanded
+
+    def evaluate(cs, rows_of, wsql, src, sy1, form1):
+        """cs: combos (p2, sy2, form2, op); rows_of(c) -> {row: (expected, target)}. Returns {c: set of right rows}"""
+        right = {}
         groups: dict = {}
-        exps: dict = {}
-        for c in combos:
-            p2, sy2, form2, o = c
-            per = {}
-            for i in good0:
-                e, tgt = _nest_expected(wrapper, docs[i], xs[i], p2, o)
-                if e is not J.UNDEMANDED:
-                    per[i] = (e, tgt)
-            exps[c] = per
+        for c in cs:
+            per = rows_of(c)
             if per:
-                groups.setdefault(frozenset(per), []).append(c)
+                groups.setdefault(frozenset(per), []).append((c, per))
         for rowset in sorted(groups, key=sorted):
-            cs = groups[rowset]
             ids = sorted(rowset)
             _set_excluded(w, set(allids) - rowset)
-            texts = [OPS[o]["tpl"].format(x=_render(src, p2, sy2)[0]) for (p2, sy2, _f, o) in cs]
-
-            def mk(cond):
-                return _nest_place(placement, wsql, cond)
-
+            members = groups[rowset]
+            texts = [OPS[c[3]]["tpl"].format(x=_render(src, c[0], c[1])[0]) for c, _per in members]
             res = []
             for ch in _chunks(texts, BATCH):
-                head, pre, tail, _s = mk("not x")
+                head, pre, tail, _s = _nest_place(placement, wsql, "not x")
                 res += run_exprs(cur, acc, ch, pre, tail, head)
-            for c, e, r in zip(cs, texts, res):
+            for (c, per), e, r in zip(members, texts, res):
                 p2, sy2, form2, o = c
                 per_id = None
-                if r[0] == "err" and len({ts[i] for i in ids}) > 1:
-                    head, pre, tail, _s = mk("k = -1")
+                tvals = sorted({ts[i] for i in ids})
+                if r[0] == "err" and len(tvals) > 1:
+                    head, pre, tail, _s = _nest_place(placement, wsql, "k = -1")
                     if run_exprs(cur, acc, [e], pre, tail, head)[0][0] == "ok":  # the error depends on the data
                         acc.count("refined_per_value")
                         per_id = {}
-                        for tv in sorted({ts[i] for i in ids}):
-                            head, pre, tail, _s = mk(f"t = {tv} and not x")
+                        for tv in tvals:
+                            head, pre, tail, _s = _nest_place(placement, wsql, f"t = {tv} and not x")
                             rr = run_exprs(cur, acc, [e], pre, tail, head)[0]
                             got = _by_id(rr[1]) if rr[0] == "ok" else None
                             for i in ids:
@@ -1566,16 +1595,19 @@ def work_nest(item, acc, tier):
                     per_id = {i: (("ok", got.get(i, ())) if got is not None else r) for i in ids}
                 stats: dict = {}
                 sig = []
+                ok_rows = set()
                 for i in ids:
-                    exp, tgt = exps[c][i]
+                    exp, tgt = per[i]
                     rr = per_id[i]
                     sig.append((i, rr[0], rr[1]))
                     if exp is not None and exp is not J.MISSING:
                         acc.nontrivial(("nest", wid, p1, sy1, p2, sy2, o, canon(docs[i])))
-                    fk = tuple(sorted(nest_feats(wrapper, form1, form2, o, xs[i], tgt).items()))
+                    fk = tuple(sorted(nest_feats(wrapper, docs[i], p1, form1, p2, form2, o, xs[i], tgt).items()))
                     st = stats.setdefault(fk, [0, 0, None])
                     st[0] += 1
-                    if not _judge(OPS[o]["mode"], exp, rr):
+                    if _judge(OPS[o]["mode"], exp, rr):
+                        ok_rows.add(i)
+                    else:
                         st[1] += 1
                         if st[2] is None:
                             head, _pre, tail, _s = _nest_place(placement, wsql, single=True)
@@ -1584,16 +1616,47 @@ def work_nest(item, acc, tier):
                                 {"sql": sql1, "document": docs[i], "expected": repr(exp), "observed": _observed(rr)},
                                 _replay_payload(nest_load_sql([docs[i]]), sql1, enc(OPS[o]["mode"], exp)),
                             )
+                right[c] = ok_rows
                 acc.count("evaluations", len(ids))
                 acc.obs(("nest", wid, p1, sy1, p2, sy2, o, sig))
                 for fk in sorted(stats):
                     n, nfail, example = stats[fk]
                     acc.outcome(("nest", wid, o, fk, "fail" if nfail else "ok"))
                     _record(acc, "C11.nested", dict(fk), n, nfail, example)
+        return right
+
+    for sy1, xsql, form1 in renderings("v", p1, NEST_SYN):
+        # level 0: the inner path with the conversion the wrapper applies to it, on its own
+        iexp = {i: expected(inner, xs[i]) for i in allids}
+        live0 = [i for i in allids if iexp[i] is not J.UNDEMANDED]
+        _set_excluded(w, set(allids) - set(live0))
+        r0 = run_exprs(cur, acc, [OPS[inner]["tpl"].format(x=xsql)], ["id"], " from jn where id in (select id from kk where not x)")[0]
+        got0 = _by_id(r0[1]) if r0[0] == "ok" else {}
+        good0 = [i for i in live0 if r0[0] == "ok" and _judge(OPS[inner]["mode"], iexp[i], ("ok", got0.get(i, ())))]
+        acc.count("shadowed_cells", len(live0) - len(good0))
+        wsql = tpl.format(X=xsql, V="v")
+        src = _nest_place(placement, wsql, "true")[3]
+        combos = [c for c in nest_exprs(wrapper, tier) if not nest_skipped(wrapper, form1, c[2])]
+
+        def rows_of(c, among):
+            per = {}
+            for i in among:
+                e, tgt = _nest_expected(wrapper, docs[i], xs[i], c[0], c[3])
+                if e is not J.UNDEMANDED:
+                    per[i] = (e, tgt)
+            return per
+
+        # level 1: the bare nested extraction; level 2: operations on top of it, on the rows where it is right
+        raws = [c for c in combos if c[3] == "raw"]
+        right = evaluate(raws, lambda c: rows_of(c, good0), wsql, src, sy1, form1)
+        rest = [c for c in combos if c[3] != "raw"]
+        base_ok = {(c[0], c[1]): right.get(c, set()) for c in raws}
+        acc.count("shadowed_cells", sum(len(good0) - len(base_ok.get((c[0], c[1]), ())) for c in rest))
+        evaluate(rest, lambda c: rows_of(c, sorted(base_ok.get((c[0], c[1]), ()))), wsql, src, sy1, form1)
     if wi % 5 == 0 and pi == 0:
         acc.sample({"mode": "nest", "wrapper": tpl, "inner_path": list(p1), "documents": len(docs), "one_document": docs[1],
                     "some_expressions": [OPS[o]["tpl"].format(x=_render(tpl.format(X=_render("v", p1, "colon")[0], V="v"), p2, sy2)[0])
-                                         for (p2, sy2, _f, o) in nest_exprs(wrapper, "", "", tier)[5:40:9]]})  # fmt: skip
+                                         for (p2, sy2, _f, o) in nest_exprs(wrapper, tier)[5:40:9]]})  # fmt: skip
     return None
 
 
@@ -1616,13 +1679,21 @@ def nestlit_cells(doc, p1, tier):
                           "feats": {"source": "lit", "fc": formclass(form1), "fco": formclass_ops(form1), "op": inner, "kind": J.kind_of(x)},
                           "key": ("nestlit0", canon(doc), wid, sy1)})  # fmt: skip
             wsql = tpl.format(X=xsql, V=src0)
-            for p2, sy2, form2, o in nest_exprs(wrapper, wsql, xsql, tier, lit=True):
+            rawcell = {}
+            for p2, sy2, form2, o in sorted(nest_exprs(wrapper, tier, lit=True), key=lambda c: c[3] != "raw"):
+                if nest_skipped(wrapper, form1, form2):
+                    continue
                 exp, tgt = _nest_expected(wrapper, doc, x, p2, o)
                 if exp is J.UNDEMANDED:
                     continue
+                deps = [base] if o == "raw" else [base, rawcell[(p2, sy2)]] if (p2, sy2) in rawcell else None
+                if deps is None:
+                    continue
+                if o == "raw":
+                    rawcell[(p2, sy2)] = len(cells)
                 cells.append({"expr": OPS[o]["tpl"].format(x=_render(wsql, p2, sy2)[0]), "mode": OPS[o]["mode"], "exp": exp, "clause": "C11.nested",
-                              "deps": [base], "key": ("nestlit", canon(doc), wid, sy1, p2, sy2, o),
-                              "feats": dict(nest_feats(wrapper, form1, form2, o, x, tgt), op=o)})  # fmt: skip
+                              "deps": deps, "key": ("nestlit", canon(doc), wid, sy1, p2, sy2, o),
+                              "feats": dict(nest_feats(wrapper, doc, p1, form1, p2, form2, o, x, tgt), op=o)})  # fmt: skip
     return cells
 
 
@@ -1677,7 +1748,9 @@ def run(ctx: core.Ctx):
         "the length bound x every syntax rendering x every demanded op (value ops on all renderings and on the "
         "OBJECT/ARRAY typed columns; cast and uncast operator contexts on the canonical colon rendering); flat = FLATTEN "
         "columns over the same paths; lit = every relevant path (existing + one negative step per node) of every literal "
-        "document; ctor = both constructor styles of every constructor document; misc = explicit lists. One evaluation "
+        "document; ctor = both constructor styles of every constructor document; misc = explicit lists; nest = every "
+        "nested document row x inner path x inner syntax x wrapper x outer path x outer syntax x outer op (and the inline "
+        "wrappers on every nested literal document). One evaluation "
         "= one SQL expression evaluated by fakesnow on one document. Non-trivial = distinct (source, syntax, path, op, "
         "navigated value) whose expected value is not NULL / empty."
     )
@@ -1699,6 +1772,11 @@ def run(ctx: core.Ctx):
             "literal_documents": len(ldocs),
             "constructor_documents": len(cdocs),
             "work_items": len(items),
+            "nested_documents": len(nest_docs_for(tier)),
+            "nested_literal_documents": len(nest_lit_docs_for(tier)),
+            "nested_wrappers": [x[1] for x in NEST_WRAPPERS],
+            "nested_inner_paths": [list(x) for x in NEST_P1[tier]],
+            "nested_ops": NEST_OPS[tier],
             "atoms": [canon(a) for a in (ATOMS if tier == "thorough" else ATOMS_QUICK)],
             "steps": [str(x) for x in STEPS[tier]],
             "max_path_length": MAXLEN[tier] if tier == "thorough" else "2 (+ 11 listed paths of length 3)",
